@@ -63,6 +63,15 @@ def witnesses(tier, seed):
         for uplo in ('Upper', 'UniLower'):
             for n in ([2, 3, 4, 5, 8, 9] if quick else [2, 3, 4, 5, 6, 7, 8, 9, 12, 16, 17]):
                 W.append(mk_tinverse(t, n, uplo))
+    # the pivoted strategies end to end: the pivot search is interpreted symbolically (row indices become finite choices steered by
+    # the comparisons |a_ij| > |a_kj|), every result cell is a case tree, and A*X - I == 0 == X*A - I is decided in every case
+    for t in ('f64', 'f32'):
+        for strat in ('SimpleInvPiv', 'SimpleLUPiv', 'BlockLUPiv'):
+            for n in ([1, 2, 3] if quick else [1, 2, 3, 4]):
+                if t == 'f32' and n > (2 if quick else 3):
+                    continue
+                w = mk(t, n, strat); w.family = 'inverse.' + strat + '.pivoted'; w.extra['max_ms'] = 400000
+                W.append(w)
     W += pivot_helper_witnesses(['colwise'], tier)
     return group_sort(W)
 
